@@ -46,7 +46,7 @@ def gen_case(rng, tier, idx):
         # whatever is derived from the window as a whole is a candidate for depending on the end date: CO2 interpolation
         # over the simulated years (sparse user tables, and the decadal part of the default record after 2010), the number
         # of scheduled seasons, the crop calendar
-        prof.update({"co2_p": 0.6, "co2_series_extra_years": 5, "n_seasons": [1, 2, 2, 3], "weather_extra_after": 1500, "gw": 0.4})
+        prof.update({"co2_p": 0.6, "co2_series_extra_years": 5, "n_seasons": [1, 2, 2, 3], "weather_extra_after": 1500, "gw": 0.5})
     spec = gen_spec(rng, prof)
     case = {"spec": spec, "mode": mode, "seed": rng.getrandbits(32), "redraw_every": rng.choice([1, 3, 10, 50, 100000]),
             "partition_k": rng.choice([1, 1, 7, 30, 100000])}
@@ -56,6 +56,10 @@ def gen_case(rng, tier, idx):
         import datetime as _dt3
         g = spec["gw"]
         e0 = parse_date(spec["end"])
+        if rng.random() < 0.5:
+            # the table stays out of reach during this window and comes up only later (or the other way round)
+            flip = rng.random() < 0.7
+            g["values"] = [round((rng.choice([4.5, 6.0, 9.0, 14.0]) if flip else rng.choice([0.5, 0.9, 1.3])) + rng.uniform(0, 0.3), 2) for _ in g["values"]]
         deep = min(g["values"]) > 3.0
         for _ in range(rng.randint(1, 3)):
             d = e0 + _dt3.timedelta(days=rng.randint(1, 1400))
